@@ -874,10 +874,35 @@ type Printer struct {
 	Defined  map[int]bool // term id -> has define-fun tN
 	Declared map[string]bool
 	Out      *strings.Builder
+	// scoped bookkeeping: what was defined/declared at each solver level
+	defStack  [][]int
+	declStack [][]string
 }
 
 func NewPrinter() *Printer {
-	return &Printer{Defined: map[int]bool{}, Declared: map[string]bool{}, Out: &strings.Builder{}}
+	return &Printer{Defined: map[int]bool{}, Declared: map[string]bool{}, Out: &strings.Builder{},
+		defStack: [][]int{nil}, declStack: [][]string{nil}}
+}
+
+// PushLevel / PopLevels mirror the solver's assertion stack so that definitions made
+// inside a scope are forgotten when the scope is popped.
+func (p *Printer) PushLevel() {
+	p.defStack = append(p.defStack, nil)
+	p.declStack = append(p.declStack, nil)
+}
+
+func (p *Printer) PopLevels(n int) {
+	for i := 0; i < n && len(p.defStack) > 1; i++ {
+		top := len(p.defStack) - 1
+		for _, id := range p.defStack[top] {
+			delete(p.Defined, id)
+		}
+		for _, nm := range p.declStack[top] {
+			delete(p.Declared, nm)
+		}
+		p.defStack = p.defStack[:top]
+		p.declStack = p.declStack[:top]
+	}
 }
 
 // SymName returns the solver-level name for a symbol.
@@ -897,6 +922,7 @@ func (p *Printer) Ref(t *T) string {
 	case KSym:
 		if !p.Declared[t.Name] {
 			p.Declared[t.Name] = true
+			p.declStack[len(p.declStack)-1] = append(p.declStack[len(p.declStack)-1], t.Name)
 			fmt.Fprintf(p.Out, "(declare-const %s %s)\n", SymName(t.Name), sortStr(t.W))
 		}
 		return SymName(t.Name)
@@ -927,6 +953,7 @@ func (p *Printer) Ref(t *T) string {
 	}
 	// every compound node gets a name: keeps output linear in DAG size
 	p.Defined[t.ID] = true
+	p.defStack[len(p.defStack)-1] = append(p.defStack[len(p.defStack)-1], t.ID)
 	fmt.Fprintf(p.Out, "(define-fun t%d () %s %s)\n", t.ID, sortStr(t.W), s)
 	return fmt.Sprintf("t%d", t.ID)
 }
